@@ -116,6 +116,33 @@ struct c13_session : public vsim_session {
         o << "\n";
       }
     }
+    // atoms held by each atom group (and by its fitting group): "AG <obj> n id.. FIT m id.." (1-based atom numbers)
+    for (size_t i = 0; i < objs.size(); i++) {
+      cvm::atom_group *g = dynamic_cast<cvm::atom_group *>(objs[i]);
+      if (!g) continue;
+      o << "AG " << i << " " << g->atoms.size();
+      for (size_t k = 0; k < g->atoms.size(); k++) o << " " << (g->atoms[k].id + 1);
+      cvm::atom_group *fg = g->fitting_group;
+      o << " FIT " << (fg ? fg->atoms.size() : 0);
+      if (fg) for (size_t k = 0; k < fg->atoms.size(); k++) o << " " << (fg->atoms[k].id + 1);
+      o << "\n";
+    }
+    // back-references kept outside colvardeps: the biases each variable lists, the variables each bias lists
+    {
+      colvarmodule *cv = proxy->colvars;
+      for (colvar *c : *(cv->variables())) {
+        o << "CVB " << id[c] << " " << c->biases.size();
+        for (colvarbias *b : c->biases) o << " " << (id.count(b) ? id[b] : -1);
+        o << "\n";
+      }
+      for (colvarbias *b : cv->biases) {
+        o << "BCV " << id[b] << " " << b->variables()->size();
+        for (colvar *c : *(b->variables())) o << " " << (id.count(c) ? id[c] : -1);
+        o << "\n";
+      }
+    }
+    // engine-side request of total forces (a single flag, set as a side effect of enabling total_force_calculation)
+    o << "ENGINE tfreq " << (proxy->total_forces_enabled() ? 1 : 0) << "\n";
     // engine-side atom reference counts (sorted by atom id)
     std::vector<std::pair<int, int> > at;
     for (size_t i = 0; i < proxy->atoms_ids.size(); i++) at.push_back(std::make_pair(proxy->atoms_ids[i], int(proxy->atoms_refcount[i])));
